@@ -4,6 +4,8 @@ set -e
 cd "$(dirname "$0")"
 export CARGO_NET_OFFLINE=true
 mkdir -p evidence replays work
+# TLS test PKI for the key-exchange monitors (C28, C29); idempotent
+tools/gen_pki.sh >/dev/null 2>&1 || tools/gen_pki.sh
 ( cd driver && cargo build --offline --profile ship 2>&1 | tail -2 ) &
 ( cd driver && cargo build --offline --profile strict 2>&1 | tail -2 ) &
 wait
